@@ -124,12 +124,13 @@ func genHistory(r *rand.Rand, g *wsclient.Gen, seed int64) *history {
 		}
 		return cs
 	}
+	forceSlow := false
 	newSub := func(id string, boom bool) wsclient.Step {
 		seq++
 		tag := fmt.Sprintf("t%d", seq)
 		// a failing subscription fails in a plain resolver, inside the public
 		// reactive.Cache after registering a resource (live-query pattern), or both
-		opts := wsclient.QueryOpts{Slow: true, Res: true}
+		opts := wsclient.QueryOpts{Slow: true, Res: true, SlowAlways: forceSlow}
 		if boom {
 			switch r.Intn(3) {
 			case 0:
@@ -235,6 +236,22 @@ func genHistory(r *rand.Rand, g *wsclient.Gen, seed int64) *history {
 			closed = true
 		case x < 64:
 			h.Steps = append(h.Steps, wsclient.Step{Kind: "write", Op: g.NextOp(prefer()), PauseUS: pause(r)})
+		case x < 66 && x >= 64 && cancelAt < 0: // the connection context is cancelled while a RE-run is inside a context-honouring resolver
+			id := pick()
+			h.Steps = append(h.Steps, boomSet(0))
+			if live[id] != nil {
+				delete(live, id)
+				h.Steps = append(h.Steps, wsclient.Step{Kind: "unsub", ID: id, Wait: true})
+			}
+			forceSlow = true
+			st := newSub(id, false)
+			forceSlow = false
+			st.Wait, st.PauseUS = true, 0
+			h.Steps = append(h.Steps, st, wsclient.Step{Kind: "idle"})
+			h.Steps = append(h.Steps, wsclient.Step{Kind: "gate", Cell: "slow", Phase: r.Intn(2), Op: g.OpOn("slow"), Then: []wsclient.Step{{Kind: "cancel"}}, Hold: true, PauseUS: 1000 + r.Intn(2000)})
+			h.Failure = true
+			h.Steps = append(h.Steps, wsclient.Step{Kind: "close", Wait: true})
+			closed = true
 		case x < 68: // a subscription that ran successfully fails on a RE-run (retry with back-off), then ends
 			id := pick()
 			h.Steps = append(h.Steps, boomSet(0))
@@ -444,7 +461,7 @@ func TestCheck(t *testing.T) {
 	defer run.Finish()
 	run.Rule("histories over one websocket connection (scripted JSONSocket, recording SubscriptionLogger, WithMaxSubscriptions 2-4, 0-9 pass-through middlewares): 10-35 steps of subscribe / unsubscribe / mutate / echo / url / malformed envelopes with ids from a pool of 3 shared by ALL message types (plus fresh ids), undecodable frames, " +
 		"writes and invalidate-everything steps, resolver failures (initial and on re-run; plain, safe, and errors wrapping context.Canceled / DeadlineExceeded of a resolver-owned context; failing mutations), context cancellation, socket close at a random step (ReadJSON error) or through a failing WriteJSON, gate steps (a resolver of an in-flight run is held while an unsubscribe(+re-subscribe) / close / cancel / colliding mutate / subscribe lands), " +
-		"an unsubscribe-all / close sent a fraction of the write-then-read delay after a write that invalidates an idle subscription, a motif: a successful subscription fails on a re-run (retry), then unsubscribes / recovers and unsubscribes / the connection closes, a failing-subscribe+unsubscribe+re-subscribe motif, unsubscribe+subscribe played while a closeSubscription call is held at its entry, writes injected at hook points; every subscription query carries a unique tag that its resolvers log and a field that creates a reactive.Resource with a Cleanup counter; some also select a live-query field that registers a counted Resource inside the public reactive.Cache and then fails (initially / transiently on re-runs). " +
+		"an unsubscribe-all / close sent a fraction of the write-then-read delay after a write that invalidates an idle subscription, a motif: the connection context is cancelled while a re-run is inside a context-honouring resolver; a motif: a successful subscription fails on a re-run (retry), then unsubscribes / recovers and unsubscribes / the connection closes, a failing-subscribe+unsubscribe+re-subscribe motif, unsubscribe+subscribe played while a closeSubscription call is held at its entry, writes injected at hook points; every subscription query carries a unique tag that its resolvers log and a field that creates a reactive.Resource with a Cleanup counter; some also select a live-query field that registers a counted Resource inside the public reactive.Cache and then fails (initially / transiently on re-runs). " +
 		"reactive.WriteThenReadDelay is 0 in 2/5 of the histories and 0.5-3 ms in the rest. Every history ends with socket close, three invalidate-everything settle rounds and a quiescence wait. 8 pinned histories first; the last four are stress histories, each 1600 (thorough 6000) rounds of subscribe x4 / one write invalidating all / mutation + unsubscribe x4 pipelined at once, with a per-round timing jitter (Stop racing the wake-up of a re-run or of the initial run, under RerunImmediately contention). Non-trivial = the history has an end-by-close, an id collision or a failure. Distinct = step-kind sequence + end kinds of the instances.")
 	run.Assume("a subscription instance is a logger Subscribe call inside the handle window of a subscribe message; it ends at the first of: logger Unsubscribe(id), read-enter after its unsubscribe message, ServeJSONSocket returned")
 	run.Assume("Unsubscribe logger calls for ids of mutations (never subscribed) are tolerated")
